@@ -46,7 +46,8 @@ RULE = (
     "counts, balancing 1..20); SPARSE part: 100-1000 clustered points on fine meshes of 60x60 .. 200x200 blocks (shape or spacing), "
     "so that the occupied block ids span more than 10 x (points + selected blocks) with several blocks holding 2+ points, float64 / "
     "float32 / int64 / int32 coordinates, C / Fortran / strided matrices, BlockShuffleSplit test_size 0.05..0.5 / counts / train_size "
-    "(a handful to > 100 test blocks), balancing 1..10, BlockKFold n_splits 2..10 shuffle on/off; SPELLINGS part: one configuration written with python / numpy integers, 0-d arrays, tuple / list / ndarray spacings and "
+    "(a handful to > 100 test blocks), balancing 1..10, BlockKFold n_splits 2..10 shuffle on/off; LARGE part: 100 001 .. 260 000 samples (130 000, 230 000, random; never a multiple of 100 000) on 4x4 .. 10x10 meshes through "
+    "both cross-validators; SPELLINGS part: one configuration written with python / numpy integers, 0-d arrays, tuple / list / ndarray spacings and "
     "shapes, scalar spacing = equal pair, np.True_ / 1 flags, counts as python / numpy ints, fractions as float / np.float64 (np.float32 "
     "fractions are driven too but are a configuration of their own); every seeded configuration is run at least twice (same and fresh "
     "instance, after next(cv.split(X)) on an abandoned generator) with numpy's GLOBAL generator re-seeded differently before every pass; "
@@ -83,7 +84,9 @@ FLOORS = {
               "class:float32_coordinates": 130, "class:fortran_ordered_X": 180,
               "eval:spelling_equivalence": 250, "spelling:BlockKFold_variants": 150, "spelling:BlockShuffleSplit_variants": 180,
               "reproducible:kfold_shuffled_balanced": 190, "reproducible:kfold_shuffled_fallback": 200,
-              "reproducible:kfold_shuffled_unbalanced": 500, "reproducible:shuffle_split_seeded": 170, "partially_consumed_generators": 330},
+              "reproducible:kfold_shuffled_unbalanced": 500, "reproducible:shuffle_split_seeded": 170, "partially_consumed_generators": 330,
+              "class:over_100000_samples:BlockKFold": 3, "class:over_100000_samples:BlockShuffleSplit": 1,
+              "class:over_100000_samples:pairs": 10, "class:over_100000_samples:labels_one_per_sample_checked": 4},
     "thorough": {"eval:split_partition": 720000, "eval:block_integrity": 720000, "eval:kfold_folds": 187000,
                  "eval:kfold_balance": 38000, "eval:kfold_equal_blocks": 149000, "eval:kfold_fallback_justified": 55000,
                  "eval:kfold_rejects_excess_splits": 5500, "eval:shuffle_n_splits": 10000, "eval:shuffle_test_block_count": 28000,
@@ -96,7 +99,9 @@ FLOORS = {
                  "eval:spelling_equivalence": 4000, "spelling:BlockKFold_variants": 2600, "spelling:BlockShuffleSplit_variants": 3500,
                  "reproducible:kfold_shuffled_balanced": 11000, "reproducible:kfold_shuffled_fallback": 16000,
                  "reproducible:kfold_shuffled_unbalanced": 27000, "reproducible:shuffle_split_seeded": 2500,
-                 "partially_consumed_generators": 16000},
+                 "partially_consumed_generators": 16000,
+                 "class:over_100000_samples:BlockKFold": 28, "class:over_100000_samples:BlockShuffleSplit": 10,
+                 "class:over_100000_samples:pairs": 150, "class:over_100000_samples:labels_one_per_sample_checked": 40},
 }
 JOBS = {"quick": 1, "thorough": 8}
 CASE_TIMEOUT_S = 300
@@ -110,8 +115,8 @@ SAMPLE_OCCUPANCIES = (0, 0, 1, 1, 2, 3, 7, 50, 200)
 
 def plan(tier):
     if tier == "quick":
-        return collections.OrderedDict(lattice=LATTICE_CHUNKS["quick"], lattice_sample=6, random2d=36, sparse_fine=10, spellings=5, nested=4, partition=2)
-    return collections.OrderedDict(lattice=LATTICE_CHUNKS["thorough"], lattice_sample=64, random2d=480, sparse_fine=160, spellings=80, nested=48, partition=24)
+        return collections.OrderedDict(lattice=LATTICE_CHUNKS["quick"], lattice_sample=6, random2d=36, sparse_fine=10, spellings=5, large=2, nested=4, partition=2)
+    return collections.OrderedDict(lattice=LATTICE_CHUNKS["thorough"], lattice_sample=64, random2d=480, sparse_fine=160, spellings=80, large=24, nested=48, partition=24)
 
 
 class _State:
@@ -494,6 +499,11 @@ def install(tap, run):
                         run.count("class:sparse_ids:pairs_over_100_test_blocks")
             if id_range > 10 * (n + n_occupied) and multi >= 2:
                 run.count("class:sparse_ids:%s" % kind)
+        if n > 100000:  # branches that exist only above a size threshold (chunked processing)
+            run.count("class:over_100000_samples:%s" % kind)
+            run.count("class:over_100000_samples:pairs", len(pairs))
+            if observed is not None:
+                run.count("class:over_100000_samples:labels_one_per_sample_checked")
         if xmat.dtype.kind in "iu":
             run.count("class:integer_coordinates")
         elif xmat.dtype == np.float32:
@@ -890,18 +900,20 @@ def _run_lattice_sample(run, index, rng):
         run.count("lattice_sample:vectors")
 
 
-def _random_layout(rng, tier, force_layout=None):
+def _random_layout(rng, tier, force_layout=None, npoints=None, mesh=None):
     """A 2-D block layout with a point cloud whose bounding box is the layout's region; returns X, geometry, occupied count, info."""
     n_north, n_east = int(rng.integers(1, 9)), int(rng.integers(1, 9))
     if n_north * n_east == 1 and rng.random() < 0.85:
         n_east = int(rng.integers(2, 9))
+    if mesh is not None:
+        n_north, n_east = mesh
     scale = 10 ** rng.uniform(-2, 6)
     aspect = 1.0 if rng.random() < 0.4 else float(rng.uniform(0.2, 5.0))
     d_east, d_north = scale, scale * aspect
     west = float(rng.choice([0.0, 1.0, 30.0, 1e3])) * n_east * d_east * float(rng.choice([-1.0, 1.0])) * rng.uniform(0.5, 1.0)
     south = float(rng.choice([0.0, 1.0, 30.0, 1e3])) * n_north * d_north * float(rng.choice([-1.0, 1.0])) * rng.uniform(0.5, 1.0)
     top = 3.3 if tier == "thorough" else 3.0
-    npoints = int(10 ** rng.uniform(1.0, top))
+    npoints = int(10 ** rng.uniform(1.0, top)) if npoints is None else int(npoints)
     cells = n_north * n_east
     kind = str(rng.choice(["uniform", "gaussian", "clustered", "one_heavy", "sparse"]))
     rows, cols = np.divmod(np.arange(cells), n_east)
@@ -1116,6 +1128,34 @@ def _run_sparse(run, index, rng):
         if rep == 0 and pairs:
             run.sample("sparse_fine", {"layout": info, "geometry": geometry, "parameters": _params_text(cv), "X": np.asarray(xmat),
                                        "first_test_set": pairs[0][1], "n_pairs": len(pairs)})
+
+
+def _run_large(run, index, rng):
+    """More than 100 000 samples (never a multiple of 100 000) on a coarse mesh: code that works in chunks must not lose the remainder."""
+    import verde
+
+    npoints = int(rng.choice([130000, 230000, int(rng.integers(100001, 260000))]))
+    if npoints % 100000 == 0:
+        npoints += 12345
+    mesh = (int(rng.integers(4, 11)), int(rng.integers(4, 11)))
+    xmat, geometry, info = _random_layout(rng, "quick", force_layout=str(rng.choice(["C", "F", "strided", "float32", "int64"])),
+                                          npoints=npoints, mesh=mesh)
+    n_occ = info["occupied_blocks"]
+    run.count("input:large_layouts")
+    seed = int(rng.integers(0, 2 ** 31 - 1))
+    cvs = [verde.BlockKFold(n_splits=int(rng.integers(2, min(n_occ, 6) + 1)), shuffle=bool(index % 2), random_state=seed, balance=True, **geometry),
+           verde.BlockKFold(n_splits=int(rng.integers(2, min(n_occ, 6) + 1)), shuffle=not index % 2, random_state=seed, balance=False, **geometry),
+           verde.BlockShuffleSplit(n_splits=2, test_size=float(rng.choice([0.1, 0.25, 0.5])), balancing=int(rng.integers(1, 4)),
+                                   random_state=seed, **geometry)]
+    pairs = None
+    for j, cv in enumerate(cvs):
+        pairs = _drive(run, cv, xmat, n_occ)
+        if j == index % 3:
+            _drive(run, _clone(cv), xmat, n_occ)
+        del ST.warnlog[:]
+    if pairs:
+        run.sample("large", {"layout": info, "geometry": geometry, "parameters": _params_text(cvs[-1]), "n_pairs": len(pairs),
+                             "test_sizes": [int(p[1].size) for p in pairs], "train_sizes": [int(p[0].size) for p in pairs]})
 
 
 def _run_spellings(run, index, rng):
@@ -1340,6 +1380,8 @@ def run_case(run, tap, stream, index, rng):
                 _run_sparse(run, index, rng)
             elif stream == "spellings":
                 _run_spellings(run, index, rng)
+            elif stream == "large":
+                _run_large(run, index, rng)
             elif stream == "nested":
                 _run_nested(run, index, rng)
             elif stream == "partition":
